@@ -5,7 +5,7 @@
 # so several slots can run in parallel with ordinary work. Prints VIOLATION / FAILED-OBLIGATION / summary lines.
 SLOT=$1; SEED=$2; P=$3; TIER=${4:-quick}
 ISO=/tmp/iso_$SLOT
-PATCH=$SEED; [ -f "$PATCH" ] || PATCH=/verif/seeded/$SEED/patch.diff
+PATCH=$SEED; if [ "$SEED" != none ] && [ ! -f "$PATCH" ]; then PATCH=/verif/seeded/$SEED/patch.diff; fi
 mkdir -p $ISO
 if [ ! -d $ISO/repo ]; then git -C /repo worktree add -q --detach $ISO/repo HEAD || exit 9; fi
 git -C $ISO/repo checkout -q --detach $(git -C /repo rev-parse HEAD); git -C $ISO/repo checkout -- . ; git -C $ISO/repo clean -fdq
